@@ -367,16 +367,17 @@ func finish(c TypesCase, o typesOutcome) vrt.Verdict {
 }
 
 func buildCase(c TypesCase) (T, pt reflect.Type, tmpl reflect.Value, v *vrt.Verdict) {
-	if hangSeen.Load() {
+	check := "C16.types-" + c.Source
+	if c.Source == "json" || c.Source == "yaml" || c.Source == "toml" || c.Source == "cue" {
+		check = "C16.types-decoders"
+	}
+	if hungIn(check) {
 		d := vrt.OK(false, "skipped-after-hang")
 		return nil, nil, reflect.Value{}, &d
 	}
+	currentCheck.Store(check)
 	if js, jerr := json.Marshal(c); jerr == nil {
 		currentCase.Store(js)
-		currentCheck.Store("C16.types-" + map[string]string{"env": "env", "flag": "flag", "pflag": "pflag", "manglers": "manglers"}[c.Source])
-		if c.Source == "json" || c.Source == "yaml" || c.Source == "toml" || c.Source == "cue" {
-			currentCheck.Store("C16.types-decoders")
-		}
 	}
 	T, err := c.Shape.Build()
 	if err != nil {
@@ -761,7 +762,7 @@ func genTypes(sources []string, chains []string) func(t *rapid.T) TypesCase {
 		s := shape.Gen(t, typesProfile(c.Source, behind))
 		c.Shape = makeFlatDistinct(s)
 		c.Fill = rapid.Uint64Range(1, 1<<48).Draw(t, "fill")
-		c.SetPct = rapid.SampledFrom([]int{100, 100, 70, 40, 0}).Draw(t, "set_pct")
+		c.SetPct = rapid.SampledFrom([]int{100, 100, 70, 70, 40, 0}).Draw(t, "set_pct")
 		c.DefPct = rapid.SampledFrom([]int{0, 50, 100}).Draw(t, "def_pct")
 		return c
 	}
@@ -769,7 +770,7 @@ func genTypes(sources []string, chains []string) func(t *rapid.T) TypesCase {
 
 const typesRuleCommon = "config struct types from the shape grammar restricted to NAMED leaves: named scalars (Level, Count, Ratio, Flag, Name, Timeout, Color, Phase, Tiny, Big), named slices / maps / sets, " +
 	"slices and maps whose element or key type is named, user-declared pointers to those (and to slices / maps, and pointers to pointers), collections of collections, text-unmarshalable leaves, a few predeclared leaves for contrast; " +
-	"nested, pointer-to-struct and embedded structs (EmbNamed, EmbPtr, EmbDeep, EmbA, EmbB; by value and by pointer), skipped fields in any position, occasional dials / dialsalias tags; depth<=2, <=6 fields per struct; root fields are renamed until all flattened leaf names are distinct. "
+	"nested, pointer-to-struct and embedded structs (EmbNamed, EmbPtr, EmbDeep, EmbA, EmbB, and EmbSlices / EmbSlicesTagged whose members are []Struct, [2]Struct, *Struct, map[string]Struct, []*Struct of a small dials-tagged struct; by value and by pointer; the members are left unset in a good share of cases: set_pct is 100, 70, 40 or 0), skipped fields in any position, occasional dials / dialsalias tags; depth<=2, <=6 fields per struct; root fields are renamed until all flattened leaf names are distinct. "
 
 var typesAssumptions = []string{
 	"flattened leaf names are distinct (the generator renames; a replayed case that violates this is discarded)",
@@ -815,7 +816,7 @@ func TestC16TypesPflag(t *testing.T) {
 func TestC16TypesDecoders(t *testing.T) {
 	vrt.Check(t, vrt.Prop[TypesCase]{
 		ID: "C16", Name: "types-decoders",
-		Rule: typesRuleCommon + "(plus arrays of named elements, slices / maps of structs, and containers whose elements are pointers - []*time.Duration, map[string]*time.Duration, [2]*time.Duration, *[]time.Duration, []*int, map[string]*string, []*Level, []*Stamp, []DurRec ... - fed with nil elements in about a third of the slots). Decoder uniform over json, yaml, toml, cue; chain uniform over none, the ez chains (alias + SetSlice, alias + tag reformatting + SetSlice), AnonymousFlatten, TextUnmarshaler, YAML FlattenAnonymous. " +
+		Rule: typesRuleCommon + "(plus arrays of named elements, slices / maps of structs, and containers whose elements are pointers - []*time.Duration, map[string]*time.Duration, [2]*time.Duration, *[]time.Duration, []*int, map[string]*string, []*Level, []*Stamp, []DurRec ... - fed with nil elements in about a third of the slots; slices / arrays of an element struct with an unexported field ([]HidRec); the env / flag / pflag grammars also hold **Struct). Decoder uniform over json, yaml, toml, cue; chain uniform over none, the ez chains (alias + SetSlice, alias + tag reformatting + SetSlice), AnonymousFlatten, TextUnmarshaler, YAML FlattenAnonymous. " +
 			"A harness decoder under the chain builds a seeded value of the type it is asked for, spells it with the format's own encoder and hands the text to the real decoder; " +
 			"oracle: Decode returns, without panic, either an error or a value of the pointerified type; non-trivial = named non-scalar leaf present and at least one leaf spelled; distinct = distinct case JSON",
 		Assumptions: append([]string{"a value the format's encoder refuses (e.g. complex numbers in JSON) counts as a trivial case (label encoder-rejected)"}, typesAssumptions...),
@@ -826,7 +827,7 @@ func TestC16TypesDecoders(t *testing.T) {
 func TestC16TypesManglers(t *testing.T) {
 	vrt.Check(t, vrt.Prop[TypesCase]{
 		ID: "C16", Name: "types-manglers",
-		Rule: typesRuleCommon + "(plus arrays of named elements, slices / maps of structs, and containers whose elements are pointers - []*time.Duration, map[string]*time.Duration, [2]*time.Duration, *[]time.Duration, []*int, map[string]*string, []*Level, []*Stamp, []DurRec ... - fed with nil elements in about a third of the slots). Chain drawn from the shipped manglers and chains (DefaultFlatten, alias + flatten, AnonymousFlatten, SetSlice, TextUnmarshaler, the two ez chains, AnonymousFlatten + ez, TagCopying, StringCasting on its own, the time.Duration -> ParsingDuration substitution alone and with TagCopying as the JSON / Cue decoders run it); " +
+		Rule: typesRuleCommon + "(plus arrays of named elements, slices / maps of structs, and containers whose elements are pointers - []*time.Duration, map[string]*time.Duration, [2]*time.Duration, *[]time.Duration, []*int, map[string]*string, []*Level, []*Stamp, []DurRec ... - fed with nil elements in about a third of the slots; slices / arrays of an element struct with an unexported field ([]HidRec); the env / flag / pflag grammars also hold **Struct). Chain drawn from the shipped manglers and chains (DefaultFlatten, alias + flatten, AnonymousFlatten, SetSlice, TextUnmarshaler, the two ez chains, AnonymousFlatten + ez, TagCopying, StringCasting on its own, the time.Duration -> ParsingDuration substitution alone and with TagCopying as the JSON / Cue decoders run it); " +
 			"the pointerified type is translated, the mangled value filled leaf by leaf with seeded values of the mangled field types (StringCasting: with the documented spelling of a seeded value of the ORIGINAL leaf type), and translated back; " +
 			"oracle: Translate and ReverseTranslate return, without panic, either an error or a value of the pointerified type; non-trivial = named non-scalar leaf present and at least one mangled leaf filled; distinct = distinct case JSON",
 		Assumptions: typesAssumptions,
